@@ -1,9 +1,12 @@
 package main
 
 import (
+	"reflect"
+
 	"bytes"
 	"encoding/hex"
 	"fmt"
+	"go.dedis.ch/protobuf"
 	"strings"
 )
 
@@ -119,6 +122,30 @@ func (p *pool) addDepth(b []byte, depth int) int {
 			p.dres[i] = p.addDepth(cb, depth+1)
 		}
 	}
+	return i
+}
+
+// addValue inserts the canonical buffer b of a value v the harness itself
+// generated. Its verdict does not go through the id table: v's own type decodes
+// b (checked with the library), so b is a valid message of a registered type
+// whatever other type may claim the same id.
+func (p *pool) addValue(v interface{}, b []byte) int {
+	if i := p.find(b); i >= 0 {
+		return i
+	}
+	t := reflect.TypeOf(v)
+	if t.Kind() == reflect.Ptr {
+		t = t.Elem()
+	}
+	ptr := reflect.New(t).Interface()
+	if err := protobuf.DecodeWithConstructors(b[16:], ptr, ownConstructors(curSuite)); err != nil || !valuesEqual(v, ptr) {
+		return p.add(b) // the library itself does not round-trip this value: fall back to the table
+	}
+	i := len(p.entries)
+	p.entries = append(p.entries, append([]byte{}, b...))
+	p.reg = append(p.reg, true)
+	p.dres = append(p.dres, i)
+	p.vals = append(p.vals, ptr)
 	return i
 }
 
